@@ -149,6 +149,7 @@ func (t *Transaction) With(name string, readOnly bool, createFn func() (Cachable
 		 */
 		cacheToUse := existingCache
 		if readOnly {
+			verifYield("tryR", name, t)
 			// Do we already have a write lock on this cache? If we do we can
 			// let other go routines on the same transaction to concurrently
 			// read from it whilst one go routine is writing.
@@ -181,6 +182,7 @@ func (t *Transaction) With(name string, readOnly bool, createFn func() (Cachable
 				}
 			}
 		} else {
+			verifYield("wlock", name, t)
 			/* We are going to write, so we'll wait for a write lock, as we do that
 			 * the incoming search requests will start getting a cold cache because
 			 * of the TryRLock above but still keep operating. This is better than
@@ -204,6 +206,7 @@ func (t *Transaction) With(name string, readOnly bool, createFn func() (Cachable
 			}
 			t.mu.Unlock()
 		}
+		verifYield("chk", name, t)
 		if cacheToUse.scrapped {
 			log.Debug().Str("name", name).Bool("readOnly", readOnly).Msg("Cache is scrapped, using temporary new cache")
 			/* Cold temporary start, what has happened is although the cache was
